@@ -194,6 +194,16 @@ fn entries(w: &World, roles: &Roles) -> Vec<Entry> {
             must_succeed_for_holder: true,
             at_time: None,
         });
+        // repeating the current status is refused for everybody on the unchanged tree; what matters here is that an account
+        // without the role is never accepted, whatever value it sends
+        es.push(Entry {
+            name: "vamm.SetOpen#same",
+            target: Target::Vamm(v),
+            msg: jv(&vamm::ExecuteMsg::SetOpen { open }),
+            allowed: vec![roles.vamm_owner[v].clone(), w.fund.to_string()],
+            must_succeed_for_holder: false,
+            at_time: Some(obs.time + 1800),
+        });
         // price feed of this vAMM
         es.push(Entry {
             name: "feed.AppendPrice",
